@@ -439,7 +439,7 @@ fn judge_inner(check: &str, tier: &str, case: &Case, seed: u64, run: u64) -> Cas
     // (their validity, O2/O3b, still is). The finding itself is probed by fixed witness programs.
     let ws = witnesses(check);
     let is_witness = (run as usize) < ws.len();
-    if (has_yield(&case.program) || (has_try_acquire(&case.program) && !try_acquires_decidable(&case.program)) || has_unpark_order_sensitivity(&case.program) || (check != "C02" && has_sc_fence_order_sensitivity(&case.program)))
+    if ((has_yield(&case.program) && !yields_only_inside_plain_sections(&case.program)) || (has_try_acquire(&case.program) && !try_acquires_decidable(&case.program)) || has_unpark_order_sensitivity(&case.program) || (check != "C02" && has_sc_fence_order_sensitivity(&case.program)))
         && !is_witness
     {
         // (what loom did explore is still judged iteration by iteration)
@@ -479,6 +479,74 @@ pub fn has_yield(p: &Program) -> bool {
         let o = op.inner();
         matches!(o, Op::Yield)
     })
+}
+
+/// `yield_now` inside a critical section that has no other scheduling point ("lock; cell
+/// accesses; yield; cell accesses; unlock", the convoy template): loom's special scheduling of the
+/// yielder (resumed only when nobody else can run) loses no outcome there - every order of the
+/// critical sections is reached through the dependence of the acquires - so completeness is
+/// demanded although the program yields.
+pub fn yields_only_inside_plain_sections(p: &Program) -> bool {
+    // nothing but spawn / join, sections on locks and cell accesses anywhere in the program: while
+    // the yielder waits to be resumed, every other thread runs into the held lock, ends, or joins
+    let plain = p.threads.iter().flatten().all(|o| {
+        matches!(
+            o,
+            Op::Spawn { .. } | Op::Join { .. } | Op::Yield | Op::CRead { .. } | Op::CWrite { .. } | Op::Lock { .. } | Op::Unlock { .. } | Op::RLock { .. } | Op::RUnlock { .. } | Op::WLock { .. } | Op::WUnlock { .. }
+        )
+    });
+    if !plain || p.n_mutex + p.n_rwlock != 1 {
+        return false;
+    }
+    for ops in &p.threads {
+        for (pc, op) in ops.iter().enumerate() {
+            if !matches!(op.inner(), Op::Yield) {
+                continue;
+            }
+            if !matches!(op, Op::Yield) {
+                return false;
+            }
+            // backwards to the acquire, forwards to the release: cell accesses only
+            let mut i = pc;
+            let acq = loop {
+                if i == 0 {
+                    return false;
+                }
+                i -= 1;
+                match &ops[i] {
+                    Op::CRead { .. } | Op::CWrite { .. } => {}
+                    o @ (Op::Lock { .. } | Op::RLock { .. } | Op::WLock { .. }) => break o.clone(),
+                    _ => return false,
+                }
+            };
+            let mut j = pc + 1;
+            loop {
+                match ops.get(j) {
+                    Some(Op::CRead { .. }) | Some(Op::CWrite { .. }) => j += 1,
+                    Some(Op::Unlock { m }) => {
+                        if !matches!(acq, Op::Lock { m: x } if x == *m) {
+                            return false;
+                        }
+                        break;
+                    }
+                    Some(Op::RUnlock { l }) => {
+                        if !matches!(acq, Op::RLock { l: x } if x == *l) {
+                            return false;
+                        }
+                        break;
+                    }
+                    Some(Op::WUnlock { l }) => {
+                        if !matches!(acq, Op::WLock { l: x } if x == *l) {
+                            return false;
+                        }
+                        break;
+                    }
+                    _ => return false,
+                }
+            }
+        }
+    }
+    true
 }
 
 pub fn has_try_acquire(p: &Program) -> bool {
